@@ -126,6 +126,12 @@ func (ex *Exec) callModKeys(fr *frame, c *ssa.CallCommon, keys map[string]bool, 
 	if _, ok := externalModelNames[name]; ok {
 		return
 	}
+	if strings.HasPrefix(name, "reflect.") || strings.HasPrefix(name, "(reflect.") {
+		// the reflect handle model writes the reflective field arrays only
+		ex.reflKeys()
+		keys[rfHdr], keys[rfVal], keys[rfNode], keys["next"] = true, true, true, true
+		return
+	}
 	if len(callee.Blocks) > 0 && (ex.inRepo(callee) || callee.Parent() != nil) {
 		ex.funcModKeys(callee, keys, seen)
 		return
